@@ -205,6 +205,19 @@ func genC13(r *core.Rand, run int) *MuxScenario {
 			// two handlers per method, the mux picks one per request
 			sc.Local = append(sc.Local, tsvc)
 		}
+		if r.Chance(1, 4) {
+			// the routes of Files were compiled from a backend's reflected
+			// descriptors: a second backend registered the proto file first,
+			// the local service came afterwards, then that backend left (the
+			// routes stay, the local handlers serve them with their own
+			// generated messages)
+			sc.Local = []string{"larking.testpb.ChatRoom"}
+			if len(sc.Local) > 0 && r.Chance(1, 2) {
+				sc.Local = append(sc.Local, tsvc)
+			}
+			sc.Backends = append(sc.Backends, BackendSpec{Tag: "b2", Services: []string{svcFiles}})
+			sc.Pre = []RegOp{{Kind: "regsvc", Target: "local", Service: svcFiles}, {Kind: "drop", Target: "b2"}}
+		}
 	}
 	for i := 0; i < k; i++ {
 		sp := genMixedRequest(r, i+1, sc.Knobs.MaxRecv, faults)
@@ -275,6 +288,14 @@ func runC13(t *testing.T, rc *RunCtx) *RunResult {
 	if v := mr.globalInvariants("C13"); v != nil {
 		res.Violation = v
 		return res
+	}
+	if mr.pre != nil {
+		for _, rr := range mr.pre.res {
+			if rr.Panic != nil || rr.Err != nil || rr.Op.Kind == "drop" && !rr.Dropped {
+				res.Violation = violationf("C13", "setup-registration-failed", rr.Op.Kind, "setting the scene: %s %s %s: err=%v panic=%v dropped=%v", rr.Op.Kind, rr.Op.Target, rr.Op.Service, rr.Err, rr.Panic, rr.Dropped)
+				return res
+			}
+		}
 	}
 	for _, rs := range mr.reqs {
 		var v *Violation
